@@ -342,13 +342,13 @@ Definition expected_catalogue : list wrapper := [
 (* ---- clause-building calls, exactly the methods the harness calls on the pypika object ---- *)
 Inductive op :=
 | ODistinct                                          (* .distinct() *)
-| OFilter (cs : list (option string))                (* .filter(c1, c2, ...) ; None = an EmptyCriterion argument *)
+| OFilter (cs : list (option crit))                  (* .filter(c1, c2, ...) ; None = an EmptyCriterion argument *)
 | OOver (ts : list string)                           (* .over(t1, ...) *)
 | OOrderby (ts : list string) (o : option order)     (* .orderby(t1, ..., order=o) *)
 | OFrame (k : fkind) (b : bound) (ab : option bound) (* .rows(b[, ab]) / .range(b[, ab]) *)
 | OIgnoreNulls.                                      (* .ignore_nulls() *)
 
-Definition upd (fd : func_desc) (special : option string) (distinct : bool) (filters : list string) (inc_f : bool)
+Definition upd (fd : func_desc) (special : option string) (distinct : bool) (filters : list crit) (inc_f : bool)
            (partition : list string) (orderbys : list (string * option order)) (inc_o : bool) : func_desc :=
   {| fd_name := fd_name fd; fd_schema := fd_schema fd; fd_alias := fd_alias fd; fd_special := special;
      fd_distinct := distinct; fd_filters := filters; fd_include_filter := inc_f; fd_partition := partition;
